@@ -172,9 +172,12 @@ def oracle_tables(ids, pid, dt, raws):
     return conv, valid
 
 
-def eq_pairs(ids):
-    """all ordered pairs of known values of one parameter for which `a != b` is false, and the export map"""
-    pairs, bad_law = [], 0
+def eq_pairs(ids, canon=None):
+    """all ordered pairs of known values of one parameter for which `a != b` is false, and the export map; `bad_law` counts
+    the pairs that break ExportExact (same under `!=`, different exported form) among ALL values of the pools, raw ones
+    included; with `canon` (ids of the values that can reach the cache: results of the datatype, initial and observed cache
+    values) the last result lists the pairs that break it among these — the hypothesis of `replay_eq_cache_canonical`"""
+    pairs, bad_law, bad_canon = [], 0, []
     n = len(ids.vobj)
     ex = [ids.xid(p, o) for p, o in ids.vobj]
     for i in range(n):
@@ -189,7 +192,19 @@ def eq_pairs(ids):
                 pairs.append([i, j])
                 if ex[i] != ex[j]:
                     bad_law += 1
-    return pairs, ex, bad_law
+                    if canon is not None and i in canon and j in canon:
+                        bad_canon.append([repr(ids.vobj[i][1]), repr(ids.vobj[j][1])])
+    if canon is None:
+        return pairs, ex, bad_law
+    return pairs, ex, bad_law, bad_canon
+
+
+def canon_ids(conv, valid, caches):
+    """ids of the values that can reach the cache: every result of the datatype's conversion / validation, and every
+    value seen in a cache (`caches`: Python-level observations ['v', id] / ['e', id])"""
+    out = {row[1] for row in conv + valid if row[1] is not None}
+    out |= {c[1] for c in caches if c[0] == 'v'}
+    return out
 
 
 def window_ticks(x):
@@ -658,10 +673,10 @@ def impl_seq(case, errs, tables):
         main = next(st[1][1] for st in steps if st[1][0] == 'activate')
         for o in outs:
             o['msgs'] = [[ve, t] for _, ve, t in o['recv'][main]]
-        pairs, ex, bad_law = eq_pairs(ids)
+        pairs, ex, bad_law, bad_canon = eq_pairs(ids, canon_ids(conv, valid, [init_py] + [o['cache_py'] for o in outs]))
         req = {'p': 'C05', 'k': 'seq', 'eq': pairs, 'conv': conv, 'valid': valid, 'entry': entry, 'ops': ops,
                'cids': list(range(1, len(conns) + 1))}
-        return {'req': req, 'outs': outs, 'init_x': init_x, 'init_py': init_py, 'ex': ex, 'bad_law': bad_law,
+        return {'req': req, 'outs': outs, 'init_x': init_x, 'init_py': init_py, 'ex': ex, 'bad_law': bad_law, 'bad_canon': bad_canon,
                 'real_window': real_window, 'steps': steps, 'fsteps': fsteps}
     finally:
         mb.time = saved
@@ -901,7 +916,7 @@ def impl_conc(case, errs, tables, policy):
             logs_x.append(per)
             logs_t.append(pert)
         final = [cache_obs(ids, m, pid) for pid in range(npar)]
-        pairs, ex, bad_law = eq_pairs(ids)
+        pairs, ex, bad_law, bad_canon = eq_pairs(ids, canon_ids(conv, valid, [f[0] for f in final]))
         req = {'p': 'C05', 'k': 'conc', 'eq': pairs, 'conv': conv, 'valid': valid, 'entries': entries,
                'conns': visit_order, 'tick': case['tick'], 'clock': clock0,
                'progs': [[{'activate': op[1] % nconn + 1, 'ps': conc_pids(op[2], op[3], npar)} if op[0] == 'activate' else
@@ -910,7 +925,7 @@ def impl_conc(case, errs, tables, policy):
                          for pid, op in prog] for prog in case['progs']],
                'act0': [[ci % nconn + 1, conc_pids(kind, target, npar)] for ci, kind, target in conc_pre(case)],
                'labels': labels}
-        obs = {'init_x': init_x, 'logs_x': logs_x, 'logs_t': logs_t, 'final': final, 'ex': ex, 'bad_law': bad_law,
+        obs = {'init_x': init_x, 'logs_x': logs_x, 'logs_t': logs_t, 'final': final, 'ex': ex, 'bad_law': bad_law, 'bad_canon': bad_canon,
                'sched': out, 'unknown': unknown, 'visit_order': visit_order, 'choices': [c[1] for c in s.choices]}
         return req, obs, s
     finally:
@@ -1388,10 +1403,10 @@ def impl_follow(case, errs, tables):
                 oc, nested = follower_outcome(fs, triggers, None, True)
                 rows.append([['e', eid], oc, ['error', eid] if nested == 'error' else None])
             followers.append({'q': q, 'rows': rows})
-        pairs, ex, bad_law = eq_pairs(ids)
+        pairs, ex, bad_law, bad_canon = eq_pairs(ids, canon_ids(conv, valid, [i[0] for i in init] + [c[0] for o in outs for c in o['caches']]))
         req = {'p': 'C05', 'k': 'seqm', 'eq': pairs, 'conv': conv, 'valid': valid, 'entries': entries,
                'followers': followers, 'ops': ops, 'cids': list(range(1, len(conns) + 1))}
-        return {'req': req, 'outs': outs, 'init': init, 'ex': ex, 'bad_law': bad_law, 'real_windows': real_windows, 'n': n,
+        return {'req': req, 'outs': outs, 'init': init, 'ex': ex, 'bad_law': bad_law, 'bad_canon': bad_canon, 'real_windows': real_windows, 'n': n,
                 'steps': steps, 'fsteps': fsteps}
     finally:
         mb.time = saved
@@ -1516,12 +1531,29 @@ def run(ctx):
             res.count('seq.snapshot-of=' + ('error' if any(st[1][0] == 'activate' and o['cache_x'][0] == 'e'
                                                            for o, st in zip(r['outs'], r['fsteps'])) else 'value'))
             if r['bad_law']:
-                res.count('seq.export-law-broken')
+                res.count('seq.export-law-broken-by-raw-values')
+            bases = [split_inner(st[1])[1] for st in r['steps']]
+            nreq = sum(1 for b in bases if b[0] in ('change', 'rread'))
+            listening = {st[1][1] for st in r['steps'] if st[1][0] == 'activate'}
+            res.count('seq.requests=' + ('0' if nreq == 0 else '1-2' if nreq < 3 else '3+'))
+            if nreq:
+                res.count('seq.requester-listens=' + ('yes' if any(b[0] in ('change', 'rread') and b[1] in listening for b in bases)
+                                                      else 'no'))
+            res.count('seq.driver-body-assigns=' + ('yes' if any(st[1][0] == 'inner' for st in r['steps']) else 'no'))
+            near = sum(1 for a, b in zip([{'cache_py': r['init_py'], 'cache_x': r['init_x']}] + r['outs'], r['outs'])
+                       if a['cache_py'][0] == 'v' and b['cache_py'][0] == 'v' and a['cache_py'] != b['cache_py']
+                       and ps['kind'] in DRIFT_KINDS)
+            if ps['kind'] in DRIFT_KINDS:
+                res.count('seq.value-steps-on-resolution-kinds=' + ('0' if near == 0 else '1-3' if near < 4 else '4+'))
             if nsup and nerr and nrec:
                 res.nontriv(case)
                 if len(res.samples) < 3 and len(case['ops']) < 8:
                     res.samples.append({'kind': 'seq', 'case': case,
                                         'obs': [[o['recv'], o['cache_x']] for o in r['outs']]})
+            if r['bad_canon']:
+                res.disagreements.append({'case': {'kind': 'seq', 'case': case}, 'impl': 'see replay',
+                                          'model': f'hypothesis CanonExact broken: values that reach the cache, equal under != '
+                                                   f'but exported differently: {r["bad_canon"][:3]}'})
             if ctx.model_ok:
                 diff = compare_seq(r, ans)
                 if diff:
@@ -1572,6 +1604,9 @@ def run(ctx):
             res.count('follow.nested-messages=' + ('0' if nested == 0 else '1+'))
             if escaped and nested:
                 res.nontriv(case)
+            if r['bad_canon']:
+                res.disagreements.append({'case': {'kind': 'follow', 'case': case}, 'impl': 'see replay',
+                                          'model': f'hypothesis CanonExact broken: {r["bad_canon"][:3]}'})
             if ctx.model_ok:
                 diff = compare_follow(r, ans)
                 if diff:
@@ -1669,6 +1704,8 @@ def run(ctx):
                 else:
                     touched.setdefault(pid, set()).add(ti)
         res.count('conc.activations-during-run=%d' % nact)
+        nreq = sum(1 for prog in case['progs'] for _, op in prog if split_inner(op)[1][0] in ('change', 'rread'))
+        res.count('conc.requests-during-run=' + ('0' if nreq == 0 else '1' if nreq == 1 else '2+'))
         res.count('conc.pre-activated=%d' % len({c % case['nconn'] for c, _, _ in conc_pre(case)}))
         if any(len(v) > 1 for v in touched.values()) and nmsg >= 2:
             res.nontriv({'case': case, 'choices': obs['choices']})
@@ -1676,6 +1713,9 @@ def run(ctx):
                 res.samples.append({'kind': 'conc', 'progs': case['progs'], 'choices': obs['choices'],
                                     'log_conn1': obs['logs_x'][0]})
         fixed = dict(case, choices=obs['choices'])
+        if obs['bad_canon']:
+            res.disagreements.append({'case': {'kind': 'conc', 'case': fixed}, 'impl': 'see replay',
+                                      'model': f'hypothesis CanonExact broken: {obs["bad_canon"][:3]}'})
         if ctx.model_ok:
             diff = compare_conc(obs, ans)
             if diff:
